@@ -188,6 +188,23 @@ func (p c17) runAtSh(w *mon.Worker, r *rand.Rand, dir string, traced bool) mon.R
 		}
 		words[i] = strings.TrimSuffix(out, "\n")
 	}
+	// all strings through ONE @sh operator call: each word is what the string gets on its own
+	if allOut, aerr, apan := yqx.Eval("[.[] | @sh]", doc, "yaml", "json"); aerr != nil || apan != nil {
+		res.Verdict, res.Detail = mon.Violated, fmt.Sprintf("`[.[] | @sh]` failed: err=%v panic=%v", aerr, apan)
+		return res
+	} else if vs, perr := ref.ParseJSONStream(allOut); perr != nil || len(vs) != 1 || vs[0].K != ref.Seq || len(vs[0].A) != n {
+		res.Verdict, res.Detail = mon.Violated, fmt.Sprintf("`[.[] | @sh]` printed %q", clipStr(allOut, 300))
+		return res
+	} else {
+		res.Evals++
+		for i, v := range vs[0].A {
+			if v.K != ref.Str || v.S != words[i] {
+				res.Verdict = mon.Violated
+				res.Detail = fmt.Sprintf("@sh depends on what it encoded before: string #%d %q gives %q on its own but %q as part of `.[] | @sh` over %q", i, strs[i], words[i], v.S, strs)
+				return res
+			}
+		}
+	}
 	// the real binary must agree with the in-process answer (first string, sampled)
 	if r.IntN(4) == 0 {
 		docf := filepath.Join(dir, "in.yaml")
